@@ -481,13 +481,33 @@ type mask [2]uint64
 func (m mask) has(i int) bool { return m[i/64]&(1<<(i%64)) != 0 }
 func (m *mask) set(i int)     { m[i/64] |= 1 << (i % 64) }
 
+// packed sequence: 7 bits per macro, length in the top byte (L <= 8).
+type pseq uint64
+
+func pack(seq []uint8) pseq {
+	p := pseq(len(seq)) << 56
+	for i, x := range seq {
+		p |= pseq(x) << (7 * i)
+	}
+	return p
+}
+
+func (p pseq) unpack(extra int) []uint8 {
+	n := int(p >> 56)
+	out := make([]uint8, n, n+extra)
+	for i := range out {
+		out[i] = uint8(p>>(7*i)) & 0x7f
+	}
+	return out
+}
+
 type node struct {
-	seq []uint8
+	seq pseq
 	m   mask
 }
 
 type cand struct {
-	seq   []uint8
+	seq   pseq
 	key   [16]byte
 	m     mask
 	flags uint8 // 1 shared compound, 2 after cycle, 4 inside a call, 8 inside a try
@@ -558,7 +578,7 @@ func runDeep(s *stats, seq []uint8, w *walker, wantState bool, faulted, missed *
 	if r0.F != nil || !wantState {
 		return c, false
 	}
-	c.seq = seq
+	c.seq = pack(seq)
 	if cyc {
 		c.flags |= 2
 		c.key[0] ^= 0x5a // "a cycle was built" is part of the state: it decides what is asserted later
@@ -626,63 +646,73 @@ func deepPart(s *stats, L int, allowed mask, witnesses bool) (out deepOut) {
 	}
 	seen[root.key] = struct{}{}
 	out.programs = 1
-	frontier := []node{{seq: nil, m: root.m}}
+	frontier := []node{{seq: pack(nil), m: root.m}}
+	const chunk = 1 << 16 // frontier nodes per parallel batch (bounds the memory of unmerged candidates)
 	for d := 1; d <= L && len(frontier) > 0; d++ {
 		last := d == L
-		results := make([][]cand, len(frontier))
-		var execd vk.Counter
-		done := r.Parallel(len(frontier), func(i int) {
-			w := newWalker()
-			n := frontier[i]
-			for m := range macros {
-				if !n.m.has(m) || !allowed.has(m) {
-					continue
-				}
-				if m%8 == 0 && r.Expired() {
-					break
-				}
-				seq := append(append(make([]uint8, 0, len(n.seq)+1), n.seq...), uint8(m))
-				c, alive := runDeep(s, seq, w, !last, &faulted, &missed)
-				execd.Inc()
-				if alive {
-					results[i] = append(results[i], c)
-				}
-			}
-			s.merge(w)
-		})
-		out.programs += int(execd.Get())
-		out.levelCands = append(out.levelCands, int(execd.Get()))
-		if done < len(frontier) {
-			break
-		}
-		if last {
-			break
-		}
 		var next []node
-		for i := range results {
-			for _, c := range results[i] {
-				if _, dup := seen[c.key]; dup {
-					continue
+		cands, complete := 0, true
+		for lo := 0; lo < len(frontier) && complete; lo += chunk {
+			part := frontier[lo:min(lo+chunk, len(frontier))]
+			results := make([][]cand, len(part))
+			var execd vk.Counter
+			done := r.Parallel(len(part), func(i int) {
+				w := newWalker()
+				n := part[i]
+				for m := range macros {
+					if !n.m.has(m) || !allowed.has(m) {
+						continue
+					}
+					if m%8 == 0 && r.Expired() {
+						break
+					}
+					seq := append(n.seq.unpack(1), uint8(m))
+					c, alive := runDeep(s, seq, w, !last, &faulted, &missed)
+					execd.Inc()
+					if alive {
+						results[i] = append(results[i], c)
+					}
 				}
-				seen[c.key] = struct{}{}
-				next = append(next, node{seq: c.seq, m: c.m})
-				if c.flags&1 != 0 {
-					out.shared++
-				}
-				if c.flags&2 != 0 {
-					out.cyclic++
-				}
-				if c.flags&4 != 0 {
-					out.inCall++
-				}
-				if c.flags&8 != 0 {
-					out.inTry++
-				}
-				if len(c.seq) <= 2 || (len(next)%50000 == 0) {
-					r.Sample(map[string]any{"part": "deep", "macros": seqNames(c.seq), "state_flags": c.flags})
+				s.merge(w)
+			})
+			cands += int(execd.Get())
+			if done < len(part) || r.IsCapped() {
+				complete = false
+			}
+			if last {
+				continue
+			}
+			// merge in frontier order, so the representative of a state is the
+			// first sequence in (length, alphabet) order that reaches it
+			for i := range results {
+				for _, c := range results[i] {
+					if _, dup := seen[c.key]; dup {
+						continue
+					}
+					seen[c.key] = struct{}{}
+					next = append(next, node{seq: c.seq, m: c.m})
+					if c.flags&1 != 0 {
+						out.shared++
+					}
+					if c.flags&2 != 0 {
+						out.cyclic++
+					}
+					if c.flags&4 != 0 {
+						out.inCall++
+					}
+					if c.flags&8 != 0 {
+						out.inTry++
+					}
+					if d <= 2 || (len(next)%50000 == 0) {
+						r.Sample(map[string]any{"part": "deep", "macros": seqNames(c.seq.unpack(0)), "state_flags": c.flags})
+					}
 				}
 			}
-			results[i] = nil
+		}
+		out.programs += cands
+		out.levelCands = append(out.levelCands, cands)
+		if !complete || last {
+			break
 		}
 		frontier = next
 		out.levelSizes = append(out.levelSizes, len(next))
